@@ -1,6 +1,6 @@
 (* boundary/Threads: executable model of the event-loop side of anyio.to_thread.run_sync
-   (asyncio backend: run_sync_in_worker_thread _asyncio.py:2586-2643, WorkerThread :983-1062,
-   check_cancelled :2645-2655, CapacityLimiter :2050-2168).
+   (asyncio backend, _asyncio.py: AsyncIOBackend.run_sync_in_worker_thread, WorkerThread._report_result / run,
+   AsyncIOBackend.check_cancelled, CapacityLimiter).
    The OS thread that runs the user's function is NOT modelled: its three interactions with the loop are
    environment ops (ThreadStart = the worker dequeues the item, ThreadFinish = the
    call_soon_threadsafe(_report_result) callback runs in the loop, ThreadCheckCancelled = the function calls
@@ -25,7 +25,7 @@ Inductive dres :=
 
 Inductive phase :=
 | PNone               (* run_sync not called yet *)
-| PEntryCk            (* suspended in `await cls.checkpoint()` (line 2593) *)
+| PEntryCk            (* suspended in `await cls.checkpoint()`, the first statement *)
 | PWaitLim            (* in the limiter's wait queue, suspended on event.wait() *)
 | PLimYield           (* token taken on the uncontended path, suspended in cancel_shielded_checkpoint *)
 | PAwait (w : wid)    (* inside CancelScope(shield = not abandon), item handed to worker w, suspended on the future *)
@@ -100,7 +100,7 @@ Fixpoint set_cc (i : nat) (l : list (bool * bool)) : list (bool * bool) :=
   | x :: r, S j => x :: set_cc j r
   end.
 
-(* the scope handed to the worker (lines 2636-2639): the call scope itself when abandon or when it has no parent,
+(* the scope handed to the worker (`if abandon_on_cancel or scope._parent_scope is None`): the call scope itself when abandon or when it has no parent,
    otherwise its parent; as a chain, innermost first *)
 Definition handed (k : call) : list (bool * bool) :=
   if orb (abandon k) (match chain k with [] => true | _ => false end)
@@ -154,7 +154,7 @@ Fixpoint grant_loop (tot : nat) (q b : list cid) (cs : cid -> call) : list cid *
 Definition release (s : st) (c : cid) : st :=
   notify (set_lim s (remove_c c (lb s)) (lq s)).
 
-(* ---- worker pool: the body of `with CancelScope(...)` up to `await future` (lines 2608-2642) ---- *)
+(* ---- worker pool: the body of `with CancelScope(...)` up to `await future` ---- *)
 Definition stop_all (ws : list wid) (f : wid -> wstate) : wid -> wstate :=
   fold_left (fun g w => upd g w WStopped) ws f.
 
@@ -180,7 +180,7 @@ Definition deliver (s : st) (c : cid) : st :=
   let k := calls s c in
   match ph k with
   | PWaitLim =>
-      (* _deliver_cancellation skips a task whose waiter future is done (line 606) *)
+      (* _deliver_cancellation skips a task whose waiter future is done *)
       if orb (evset k) (wcanc k) then s else set_calls s (upd (calls s) c (c_wc k true))
   | PAwait _ =>
       if abandon k then
